@@ -3,6 +3,7 @@
 import ast
 
 from ..astutil import attr_chain, const_number, product_factors, signed_terms
+from .lin_word import lin_word_rule
 from ..entries import enumerate_entries, entry_args, transform_classes, _only_raises
 from ..interp import Interp, OBJ, AV, T, TUP, E, all_ann
 from ..model import AnalysisIncomplete, FuncInfo, norm_text, stmt_of
@@ -829,9 +830,8 @@ def _diag_stores(fi):
     return out
 
 
-def lin_logdet_rule(ctx):
+def lin_pos_rule(ctx):
     p = ctx.p
-    res = RuleResult("LIN-LOGDET", "forward/inverse no-cache paths return +/- logabsdet(), which sums the log of the same diagonal that fills the triangular / diagonal factor in every view of the map")
     res_pos = RuleResult("LIN-POS", "the diagonal of the factor is positive for every parameter value")
     spec = {
         "LULinear": ("nflows.transforms.lu", "upper_diag", "log"),
@@ -840,100 +840,13 @@ def lin_logdet_rule(ctx):
     }
     for cname, (modname, diag_attr, kind) in spec.items():
         cls = p.find_class(cname, modname)
-        # (1) +L / -L
-        for direction, want in (("forward_no_cache", 1), ("inverse_no_cache", -1)):
-            fi = cls.methods.get(direction)
-            if fi is None:
-                continue  # reported by LIN-COMPLETE
-            for path in paths_of(fi.node):
-                if path.kind != "return":
-                    continue
-                ld = _ld_of_path(path)
-                terms = ld_terms(ld)
-                keys = [(s, leaf_key(l)) for s, l in terms]
-                if keys == [(want, "self.logabsdet()")]:
-                    res.ok("%s.%s returns %sself.logabsdet() per batch item" % (cname, direction, "+" if want > 0 else "-"))
-                else:
-                    res.fail(Finding("LIN-LOGDET", fi.module, fi.qualname, path.ret_node, "%s.%s must return %sself.logabsdet() broadcast to the batch; found %s" % (cname, direction, "+" if want > 0 else "-", keys[:4])))
-        # (2) logabsdet() = sum(log d) / sum(l)
-        la = cls.methods.get("logabsdet")
-        okl = False
-        for path in (paths_of(la.node) if la is not None else []):
-            if path.kind != "return":
-                continue
-            t = norm_text(path.ret).replace(" ", "")
-            if kind == "log":
-                forms = ("torch.sum(torch.log(self.%s))" % diag_attr, "torch.log(self.%s).sum()" % diag_attr, "self.%s.log().sum()" % diag_attr, "torch.sum(self.log_%s)" % diag_attr)
-            else:
-                forms = ("torch.sum(self.%s)" % diag_attr, "self.%s.sum()" % diag_attr)
-            if t in forms:
-                okl = True
-            else:
-                res.fail(Finding("LIN-LOGDET", la.module, la.qualname, path.ret_node, "%s.logabsdet() must be the sum of the log of the factor's diagonal (%s); found `%s`" % (cname, forms[0], norm_text(path.ret)[:80])))
-        if okl:
-            res.ok("%s.logabsdet() sums the log of self.%s" % (cname, diag_attr))
-        if cname == "SVDLinear":
-            ld = cls.methods.get("log_diagonal")
-            if ld is not None:
-                r = [n for n in ast.walk(ld.node) if isinstance(n, ast.Return)]
-                if len(r) == 1 and norm_text(r[0].value).replace(" ", "") == "torch.log(self.diagonal)":
-                    res.ok("SVDLinear.log_diagonal = log(self.diagonal)")
-                else:
-                    res.fail(Finding("LIN-LOGDET", ld.module, ld.qualname, ld.node, "log_diagonal must be log(self.diagonal)", construct="log_diagonal"))
-        # (3) the same diagonal fills the factor everywhere
-        uses = {}
-        for mname in ("forward_no_cache", "inverse_no_cache", "weight", "weight_inverse", "_create_upper", "_create_lower_upper"):
-            m = cls.methods.get(mname)
-            if m is None:
-                continue
-            txt = norm_text(m.node)
-            uses[mname] = txt
-        if cname == "LULinear":
-            ds = _diag_stores(cls.methods.get("_create_lower_upper"))
-            vals = sorted(v for _, v in ds)
-            if vals in (["1.0", "self.upper_diag"], ["1", "self.upper_diag"]) and len({t for t, _ in ds}) == 2:
-                res.ok("LULinear: U's diagonal is self.upper_diag, L's diagonal is 1")
-            else:
-                res.fail(Finding("LIN-LOGDET", cls.module, cname + "._create_lower_upper", cls.methods["_create_lower_upper"].node, "the diagonal of U must be self.upper_diag (the quantity logabsdet() sums) and the diagonal of L must be 1", construct="diagonals of L and U"))
-            for mname in ("forward_no_cache", "inverse_no_cache", "weight", "weight_inverse"):
-                if "self._create_lower_upper()" in uses.get(mname, ""):
-                    res.ok("LULinear.%s builds its factors with _create_lower_upper()" % mname)
-                else:
-                    res.fail(Finding("LIN-LOGDET", cls.module, "%s.%s" % (cname, mname), cls.methods[mname].node if mname in cls.methods else cls.node, "%s does not use the shared factor constructor" % mname, construct="factors in " + mname))
-        elif cname == "QRLinear":
-            ds = _diag_stores(cls.methods.get("_create_upper"))
-            if [v for _, v in ds] == ["torch.exp(self.log_upper_diag)"]:
-                res.ok("QRLinear: R's diagonal is exp(self.log_upper_diag)")
-            else:
-                res.fail(Finding("LIN-LOGDET", cls.module, cname + "._create_upper", cls.methods["_create_upper"].node, "the diagonal of R must be exp(self.log_upper_diag), whose sum logabsdet() returns", construct="diagonal of R"))
-            for mname in ("forward_no_cache", "inverse_no_cache", "weight", "weight_inverse"):
-                if "self._create_upper()" in uses.get(mname, ""):
-                    res.ok("QRLinear.%s builds R with _create_upper()" % mname)
-                else:
-                    res.fail(Finding("LIN-LOGDET", cls.module, "%s.%s" % (cname, mname), cls.methods[mname].node if mname in cls.methods else cls.node, "%s does not use the shared factor constructor" % mname, construct="factors in " + mname))
-        else:
-            want = {"forward_no_cache": "outputs *= self.diagonal", "inverse_no_cache": "outputs /= self.diagonal", "weight": "torch.diag(self.diagonal)", "weight_inverse": "torch.diag(torch.reciprocal(self.diagonal))"}
-            alt = {"forward_no_cache": "outputs = outputs * self.diagonal", "inverse_no_cache": "outputs = outputs / self.diagonal", "weight_inverse": "torch.diag(1 / self.diagonal)", "weight": "torch.diag(self.diagonal)"}
-            stmts = {}
-            for mname in want:
-                m = cls.methods.get(mname)
-                stmts[mname] = set()
-                if m is not None:
-                    for n in ast.walk(m.node):
-                        if isinstance(n, ast.stmt):
-                            stmts[mname].add(norm_text(n))
-                        elif isinstance(n, ast.Call):
-                            stmts[mname].add(norm_text(n))
-            for mname, frag in want.items():
-                if frag in stmts[mname] or alt[mname] in stmts[mname]:
-                    res.ok("SVDLinear.%s scales by self.diagonal" % mname)
-                else:
-                    res.fail(Finding("LIN-LOGDET", cls.module, "%s.%s" % (cname, mname), cls.methods[mname].node if mname in cls.methods else cls.node, "%s must scale by self.diagonal (%s), the quantity logabsdet() sums" % (mname, frag), construct="diagonal in " + mname))
-        # LIN-POS
         ai = p.attrs(cls).get(diag_attr)
         if kind == "exp":
-            res_pos.ok("%s: diagonal = exp(log_upper_diag) > 0" % cname)
-        elif ai is not None and ai.func is not None:
+            if ai is None:
+                res_pos.undecide("%s.%s" % (cname, diag_attr), "attribute missing")
+            else:
+                res_pos.ok("%s: diagonal = exp(log_upper_diag) > 0 (the factor's diagonal expression is tied to it by LIN-LOGDET)" % cname)
+        elif ai is not None and ai.func is not None and ai.kind == "PROPERTY":
             rets = [n for n in ast.walk(ai.func.node) if isinstance(n, ast.Return)]
             s = sign_of(rets[0].value) if len(rets) == 1 else "ANY"
             if s == POS:
@@ -942,21 +855,7 @@ def lin_logdet_rule(ctx):
                 res_pos.fail(Finding("LIN-POS", ai.func.module, ai.func.qualname, ai.func.node, "%s.%s = `%s` is not provably positive (sign %s): the factor can be singular and log of it undefined" % (cname, diag_attr, norm_text(rets[0].value) if rets else "?", s), construct="sign of %s.%s" % (cname, diag_attr)))
         else:
             res_pos.undecide("%s.%s" % (cname, diag_attr), "not a property")
-    # OneByOneConvolution inherits LULinear's accessors unchanged
-    conv = p.find_class("OneByOneConvolution", "nflows.transforms.conv")
-    over = [a for a in ACCESSORS if a in conv.methods]
-    if over:
-        res.fail(Finding("LIN-LOGDET", conv.module, conv.name, conv.node, "OneByOneConvolution overrides %s: the cached paths no longer describe the LU map" % over, construct="overrides of OneByOneConvolution"))
-    else:
-        res.ok("OneByOneConvolution uses LULinear's accessors")
-    # NaiveLinear: logabsdet() is the log|det| of the very matrix forward applies
-    nl = p.find_class("NaiveLinear", "nflows.transforms.linear")
-    txts = {m: norm_text(nl.methods[m].node) for m in ("forward_no_cache", "logabsdet", "weight", "weight_inverse") if m in nl.methods}
-    if "F.linear(inputs, self._weight, self.bias)" in txts.get("forward_no_cache", "") and "torchutils.logabsdet(self._weight)" in txts.get("logabsdet", "") and "return self._weight" in txts.get("weight", "") and "torch.inverse(self._weight)" in txts.get("weight_inverse", ""):
-        res.ok("NaiveLinear: forward, weight(), weight_inverse() and logabsdet() all refer to self._weight")
-    else:
-        res.fail(Finding("LIN-LOGDET", nl.module, nl.name, nl.node, "NaiveLinear's forward, weight(), weight_inverse() and logabsdet() must all refer to the same matrix self._weight", construct="matrix of NaiveLinear"))
-    return [res, res_pos]
+    return res_pos
 
 
 def orth_rule(ctx):
@@ -1110,12 +1009,17 @@ register(
 
 register(
     "C11",
-    [lin_complete_rule, lin_logdet_rule, orth_rule],
+    [lin_complete_rule, lin_word_rule, lin_pos_rule, orth_rule],
     "LIN-COMPLETE: every concrete Linear subclass resolves all five accessors, both no-cache paths and both combined accessors "
-    "to non-abstract bodies. LIN-LOGDET: forward_no_cache / inverse_no_cache return +/- self.logabsdet() per batch item; "
-    "logabsdet() sums the log of the very attribute that fills the diagonal of the triangular / diagonal factor used by "
-    "forward, inverse, weight() and weight_inverse() (through the shared factor constructors); NaiveLinear's four views refer "
-    "to one matrix. LIN-POS: that diagonal is positive for every parameter value (sign lattice). ORTH-REV: "
+    "to non-abstract bodies. LIN-WORD: abstract interpretation of every accessor and no-cache pass into the free group with "
+    "transposition over the factor matrices (triangular factors identified by the index buffers and values stored into a zero "
+    "matrix, Householder factors Q with module(x) = x Q and Q^T = Q^-1, diag(v), square parameters); with W = weight(): "
+    "weight_inverse() = W^-1, forward_no_cache = X W^T + b, inverse_no_cache = (X - b) W^-T, the combined accessors return "
+    "W / W^-1, every triangular solve is given the upper / unitriangular flags of its factor, and HouseholderSequence.matrix() "
+    "= Q^-1. LIN-LOGDET: logabsdet(), the second components of both combined accessors and of forward_no_cache equal "
+    "+ the sum over W's factors of sum(log diag) (unit-triangular and orthogonal factors contribute 0, a square parameter its "
+    "log|det|, also spelled through slogdet or the diagonal of its LU factors), inverse_no_cache its negation. Equality is of "
+    "normal forms; an operation outside the table leaves the accessor undecided (exit 2). LIN-POS: that diagonal is positive for every parameter value (sign lattice). ORTH-REV: "
     "HouseholderSequence.inverse applies the same rows in exactly reversed order and every step is the reflection "
     "x - outer(x.q, (2/|q|^2) q) with its own norm. Numeric accuracy of the inverse and usability for every accepted size "
     "(e.g. Householder counts beyond the feature count) are value facts and are NOT decided.",
